@@ -576,7 +576,7 @@ class C11(Prop):
     batch = 250
 
     def n_random(self, tier: str) -> int:
-        return 12000 if tier == "quick" else 200000
+        return 8000 if tier == "quick" else 200000
 
     def strategy(self, tier: str, disabled: frozenset[str]):
         return case_strategy()
